@@ -194,6 +194,9 @@ fn range_like(case: &Case) -> (Result<(), Violation>, Run) {
 }
 
 pub fn eval_c19(case: &Case) -> Outcome {
+    if crate::zsthuge::is_huge_zst(case) {
+        return crate::zsthuge::eval_c19_huge(case);
+    }
     let (verdict, run) = if case.kind.is_range() { range_like(case) } else { slice_like(case) };
     // cursor of each iterator = total requested positions of its lineage
     let cursors: std::collections::HashSet<u128> = run
